@@ -339,7 +339,7 @@ def replay(case, rec):
 
 
 def run(rec, rng, tier, shard, nshards):
-    n = 1500 if tier == 'quick' else 25000
+    n = 4000 if tier == 'quick' else 40000
     for i in range(n):
         case = gen_case(rng)
         run_case(case, rec)
